@@ -45,7 +45,7 @@ OPNAMES = ["update_ibi_pot", "dist_boltzmann_invert", "table_linearop", "table_l
            "table_combine_sum", "merge_tables", "add_POT", "table_scale", "table_integrate",
            "resample_derivative", "integrate_derivative", "potential_shift", "table_smooth",
            "table_extrapolate", "potential_extrapolate", "table_get_value", "table_change_flag",
-           "table_dummy", "table_average", "dist_adjust", "table_switch_border", "resample_same"]
+           "table_dummy", "table_average", "dist_adjust", "table_switch_border", "resample_same", "average_linearop"]
 # csg_table keys of the scripts that can also be reached through csg_call
 CALLKEY = {"update_ibi_pot": ("update", "ibi_pot"), "dist_boltzmann_invert": ("dist", "invert"),
            "table_linearop": ("table", "linearop"), "table_linearop_x": ("table", "linearop"),
@@ -101,16 +101,24 @@ def half_grid(c):
     return [float((c["x0"] + j) * h + h / 2) for j in range(c["g"][-1])]
 
 
-def write_table(path, xs, ys, flags):
+def write_table(path, xs, ys, flags, c=None):
+    """c: the case; c["e4"]: write an error column (x y yerr flag; the tools are run without --with-errors and must take the
+    LAST column as the flag); c["zsp"]: spelling of an exact zero"""
+    e4 = bool(c and c.get("e4"))
+    zsp = (c or {}).get("zsp", "0.0")
     with open(path, "w") as f:
         for x, y, fl in zip(xs, ys, flags):
-            f.write("%r %r %s\n" % (x, y, fl))
+            ytxt = zsp if y == 0 else repr(y)
+            if e4:
+                f.write("%r %s %r %s\n" % (x, ytxt, real(c["ye"]), fl))
+            else:
+                f.write("%r %s %s\n" % (x, ytxt, fl))
 
 
 def write_tab(path, c, t, first=0):
     n = len(t["y"])
     xs = grid(c)[first:first + n]
-    write_table(path, xs, [real(q) for q in t["y"]], t["f"])
+    write_table(path, xs, [real(q) for q in t["y"]], t["f"], c)
 
 
 # ------------------------------------------------------------------------------------------------
@@ -153,12 +161,12 @@ class Runner:
         S = lambda args: self.script(c, args, via_call)
         if op == "update_ibi_pot":
             xs = grid(c)
-            write_table(os.path.join(d, "tgt.tab"), xs, [dist_value(e) for e in c["tg"]], "i" * c["n"])
-            write_table(os.path.join(d, "cur.tab"), xs, [dist_value(e) for e in c["cu"]], "i" * c["n"])
+            write_table(os.path.join(d, "tgt.tab"), xs, [dist_value(e) for e in c["tg"]], "i" * c["n"], c)
+            write_table(os.path.join(d, "cur.tab"), xs, [dist_value(e) for e in c["cu"]], "i" * c["n"], c)
             write_tab(os.path.join(d, "pot.tab"), c, c["pot"])
             return [S(["tgt.tab", "cur.tab", "pot.tab", out, repr(real(c["c"]) / LN2)])], out, "table"
         if op == "dist_boltzmann_invert":
-            write_table(os.path.join(d, "in.tab"), grid(c), [dist_value(e) for e in c["e"]], "i" * c["n"])
+            write_table(os.path.join(d, "in.tab"), grid(c), [dist_value(e) for e in c["e"]], "i" * c["n"], c)
             a = ["--kbT", repr(real(c["c"]) / LN2)]
             if c["type"]:
                 a += ["--type", c["type"]]
@@ -275,7 +283,14 @@ class Runner:
             for j, t in enumerate(c["ts"]):
                 names.append("in%d.tab" % j)
                 write_tab(os.path.join(d, names[-1]), c, t)
-            return [S(["--output", out] + names)], out, "table4"
+            return [S((["--cols", "4", "--col-y", "2"] if c.get("e4") else []) + ["--output", out] + names)], out, "table4"
+        if op == "average_linearop":
+            names = []
+            for j, t in enumerate(c["ts"]):
+                names.append("in%d.tab" % j)
+                write_tab(os.path.join(d, names[-1]), c, t)
+            return [[self.csg_call, "table", "average", "--output", "avg.tab"] + names,
+                    ["perl", os.path.join(SCRIPTS, "table_linearop.pl"), "--withflag", "i", "avg.tab", out, num(c["a"]), num(c["b"])]], out, "table"
         if op == "table_switch_border":
             write_tab(os.path.join(d, "in.tab"), c, c["t"])
             xs = grid(c)
@@ -287,6 +302,9 @@ class Runner:
         shutil.rmtree(d, ignore_errors=True)
         os.makedirs(d)
         cmds, out, kind = self.commands(c, d, via_call)
+        if c.get("twice"):       # idempotent operator: once more on its own output
+            inname = "dst.tab" if c["op"] == "merge_tables" else "in.tab"
+            cmds = cmds + [["out.tab" if a == inname else ("out2.tab" if a == out else a) for a in cmds[-1]]]
         obs = {"cmds": [" ".join(a) for a in cmds], "rc": 0, "stdout": "", "stderr": "", "kind": kind, "dir": d}
         for a in cmds:
             try:
@@ -308,6 +326,8 @@ class Runner:
             obs["rows"], obs["malformed"] = read_rows(os.path.join(d, out), 4 if kind == "table4" else 3)
             if c["op"] == "resample_same":
                 obs["rows2"], obs["malformed2"] = read_rows(os.path.join(d, "der.tab"), 3)
+            if c.get("twice"):
+                obs["rows_twice"], obs["malformed_twice"] = read_rows(os.path.join(d, "out2.tab"), 3)
         return obs
 
 
@@ -394,6 +414,12 @@ def point_class(c, exp, k):
 def judge(c, exp, obs, ctx=None, drift=None):
     """returns [(key, text)]"""
     bad = judge1(c, exp, obs, ctx, drift)
+    if c.get("twice") and obs["rc"] == 0:
+        # script(script(t)) = script(t): the second output is judged against the same expectation
+        o2 = dict(obs, rows=obs.get("rows_twice"), malformed=obs.get("malformed_twice"))
+        bad += [(k.replace(c["op"] + ":", c["op"] + ":twice:", 1), t) for k, t in judge1(c, exp, o2, ctx, None)]
+    if c.get("e4"):
+        bad = [(k.replace(c["op"] + ":", c["op"] + ":4col:", 1), t) for k, t in bad]
     if c["op"] == "resample_same" and obs["rc"] == 0:
         # the --derivative table: flags of the input for every spline type, values (either adjacent slope) for the linear one
         e2 = dict(exp["d"])
@@ -711,6 +737,9 @@ def run(ctx):
         "transitions at late points (flags must be preserved exactly); distributions are 2^e (e in -6..6) or 0; "
         "kT = c/ln 2; --min = 1.5*2^m: no decision of a script sits on a rounding boundary",
         "values are compared with 1e-9 (relative above 1), flags and row count exactly, abscissae to 1e-12",
+        "input-file variants chosen by TLC that must not matter: an error column (x y yerr flag, tools run without "
+        "--with-errors), the spelling of an exact zero (0.0, 0, -0, -0.0, 0e0), already shifted potentials; idempotent "
+        "operators (shift, dist_adjust, change_flag, extrapolate, merge) are executed twice: script(script(t)) = script(t)",
         "two-valued points (DESIGN 7.3a scan start of update_ibi_pot.pl, several maxima of the current rdf, closest-point "
         "ties of table_get_value, minimum over 'i' points or all points in potential_shift, flag of a midpoint in the "
         "derivative) admit every reading; points the documentation leaves open (undefined region of the Boltzmann inversion, "
